@@ -731,16 +731,24 @@ package core
 // The journal name of a fork (the part of fqname after the call's fqid) is always the
 // fork id passed through encodeJournalName ('.' and '/' escaped), for single-part ids too:
 // parseRunFilename cuts journal file names at dots.
-//@ func core.ForkId.ForkIdString property C11
+//@ func core.ForkId.ForkIdString property C11 C05
 //@   trusted
 //@   pure
 //@   opt deterministic on
 
-//@ func core.Fork.updateId property C11
+// Ghost event: readinto[m] counts Metadata.ReadInto calls on m.
+//@ func core.Metadata.ReadInto property C05 C11
+//@   trusted
+//@   modifies ghost(readinto)
+//@   ensures ghost(readinto)[self] == old(ghost(readinto)[self]) + 1
+//@   ensures forall m *core.Metadata :: m != self ==> ghost(readinto)[m] >= old(ghost(readinto)[m])
+
+//@ func core.Fork.updateId property C11 C05
 //@   requires self != nil && self.node != nil && self.node.top != nil
+//@   ensures @reload self.path != old(self.path) ==> ghost(readinto)[self.split_metadata] > old(ghost(readinto))[self.split_metadata]
 //@   ensures @journalname self.fqname == fn(syntax.CallGraphNode.GetFqid, self.node.call) + "." + fn("strings.Replacer.Replace", core.encodeJournalName, self.id)
 //@   ensures @id self.id == fn(core.ForkId.ForkIdString, id).0
-//@   loop 1 invariant self.fqname == atloop(self.fqname) && self.id == atloop(self.id) && self.node == atloop(self.node)
+//@   loop 1 invariant self.fqname == atloop(self.fqname) && self.id == atloop(self.id) && self.node == atloop(self.node) && self.path == atloop(self.path) && self.split_metadata == atloop(self.split_metadata) && ghost(readinto) == atloop(ghost(readinto))
 
 // ---------------------------------------------------------------- C16 the split status of an argument survives JSON -> call
 // BuildCallAst: every argument listed in splitargs (and supplied) is bound to a split
